@@ -99,7 +99,7 @@ def ebb3_call(obj, h, a):
     return table.get(h)
 
 
-FREE = ("timed_pause", "motors_enable")        # helpers whose documented text leaves a choice: judged by the statement when they differ from the table
+FREE = ("timed_pause",)        # the one helper whose statement leaves a choice (any chunks of 1..750 ms summing to n): judged by the statement when it differs from the table
 
 
 def free_event(h, a, w):
